@@ -1,0 +1,23 @@
+//go:build verif
+
+package netutil
+
+// Re-exports of unexported helpers for the verification harness in /verif.  This
+// file is compiled only with the "verif" build tag and changes no behaviour.
+
+var (
+	VerifIsValidIPv4String    = isValidIPv4String
+	VerifIsValidIPv6String    = isValidIPv6String
+	VerifIsIPv4Label          = isIPv4Label
+	VerifSplitAddrPort        = splitAddrPort
+	VerifIsUint16             = isUint16
+	VerifIndexFirstV4Label    = indexFirstV4Label
+	VerifIndexFirstV6Label    = indexFirstV6Label
+	VerifIPv4NetFromReversed  = ipv4NetFromReversed
+	VerifIPv6NetFromReversed  = ipv6NetFromReversed
+	VerifSubnetFromReversedV4 = subnetFromReversedV4
+	VerifSubnetFromReversedV6 = subnetFromReversedV6
+	VerifIPv4FromReversed     = ipv4FromReversed
+	VerifIPv6FromReversed     = ipv6FromReversed
+	VerifFromHexByte          = fromHexByte
+)
